@@ -160,15 +160,17 @@ def _c07(tier, seed):
 PROPS["C07"] = {
     "level": "translation_validation",
     "programs": 3,
-    "files": ["src/raft/filestore/raftdata.rs", "src/raft/store/mod.rs"],
+    "files": ["src/raft/filestore/raftdata.rs", "src/raft/store/mod.rs", "src/config/core.rs", "src/common/sequence_utils.rs"],
     "smt": _c07,
     "trusted_base": ["rs2smt parser + lenient symbolic evaluator (/verif/rs2smt)", "z3 5.1.0 (equality of first-order terms with uninterpreted symbols)"],
     "assumptions": [
         "payload fields of a request are uninterpreted; helper calls with identical source text (String::from_utf8_lossy, ConfigValueDO::from_bytes, into) are the same uninterpreted function in all three programs",
         "Addr::send / Addr::do_send are both 'emit message to that actor'; the difference in mode (awaiting the reply vs. fire-and-forget) is reported, not compared",
-        "what the receiving actors do with equal messages is outside (equal messages to the same single-threaded actor in the same order give equal state)",
+        "what the receiving actors do with equal messages is outside (equal messages to the same single-threaded actor in the same order give equal state) - except the config actor: "
+        "s07_config_component_paths runs two ConfigActor replicas from source, the leader taking history id / table id from its own SimpleSequence::next_state (batch size 2), both applying the committed "
+        "ConfigRaftCmd; GET, history, index and the history-id sequence point agree after every one of 3 (thorough: 4) requests",
     ],
-    "outside": "ordering between different actors' mailboxes on the follower path; StateApplyManager's last_applied bookkeeping; the actors' own handlers",
+    "outside": "ordering between different actors' mailboxes on the follower path; the handlers of the components other than the config actor (table, namespace, sequence, cache, MCP, naming)",
     "explanation": "three dispatch programs compared per request variant as first-order terms",
 }
 
@@ -180,18 +182,23 @@ def _c18(tier, seed):
 
 PROPS["C18"] = {
     "level": "other",
-    "files": ["src/common/model/privilege.rs", "src/namespace/mod.rs", "src/config/config_index.rs", "src/naming/service_index.rs", "src/user/mod.rs", "src/user/model.rs"],
+    "files": ["src/common/model/privilege.rs", "src/namespace/mod.rs", "src/config/config_index.rs", "src/naming/service_index.rs", "src/user/mod.rs", "src/user/model.rs",
+              "src/console/config_api.rs", "src/console/naming_api.rs", "src/console/api.rs", "src/console/v2/config_api.rs", "src/console/v2/naming_api.rs", "src/console/v2/namespace_api.rs",
+              "src/console/v2/mcp_server_api.rs", "src/console/v2/mcp_tool_spec_api.rs"],
     "smt": _c18,
     "trusted_base": _S_TRUSTED,
     "assumptions": [
         "white/blacklists range over subsets of {'', public, a, b}; the namespace asked about is an arbitrary string",
         "the per-namespace sub-index of a listing returns keys of its own namespace (its own filters are outside)",
-        "NOT claimed: that every console handler calls the check before acting (a missing call site is not a solver question)",
+        "s18_4 (call sites): every fn of src/console/*.rs and src/console/v2/*.rs whose request parameters name a namespace (namespace, namespace_id, namespaceId, tenant) is evaluated from source in "
+        "lenient mode; `user_namespace_privilege!` yields an object whose check_* answers are fresh Booleans; calls through the shared application data are data accesses; a data access built from a "
+        "namespace source needs an earlier check on a term built from the same source that the path took as true, or carries the privilege object (listing delegated to the index filters). Weaker than "
+        "equality of the checked and the used term. Handlers addressed by id only (MCP get / update / remove / publish by id) name no namespace and are outside. Nine MCP handlers are known findings (S18-b)",
         "s18_3: UserManager::{add_user, update_user}, UserDo::build_namespace_privilege, From<UserDo> for UserDto, PrivilegeGroup::{all, new, get_flags} from source; the raft table route is a one-table store, "
         "UserDo::to_bytes / from_bytes a copy (prost codec outside); lists absent / empty / [a] / [a, b] (blacklist: absent / empty / [b]), flags absent or arbitrary; quick tier compares through the closed form of "
         "check_permission on the namespaces '', a, b, zz, thorough through the source of check_permission with an arbitrary namespace string; counterexamples and two sampled histories run on a real single-node application",
     ],
-    "outside": "the ~30 console handlers' call sites; LDAP / OAuth2 users' groups; the session cache between two logins",
+    "outside": "console handlers that address an entry by id only; the multipart import handlers (their namespace comes from a form / header); LDAP / OAuth2 users' groups; the session cache between two logins",
     "explanation": "bounded symbolic evaluation of the privilege algebra and the two index listing functions from the real source into SMT",
 }
 
@@ -467,6 +474,7 @@ _LOG_S_ASSUME = [
 PROPS["C02"]["smt"] = _c02_smt
 PROPS["C02"]["assumptions"] = PROPS["C02"]["assumptions"] + _LOG_S_ASSUME
 PROPS["C02"]["outside"] = "multi-actor RaftLogManager / FileStore message flow (rollover, split-off, compaction pointers); records larger than the 1024-byte scan buffer"
+PROPS["C03"]["outside"] = "async-raft's conflict path itself; the mailboxes between the log manager and its file actors"
 PROPS["C03"]["smt"] = _c03_smt
 PROPS["C03"]["assumptions"] = PROPS["C03"]["assumptions"] + _LOG_S_ASSUME
 PROPS["C04"] = {
@@ -498,17 +506,20 @@ def _c08(tier, seed):
 
 PROPS["C08"] = {
     "level": "model_checking",
-    "files": ["src/raft/filestore/core.rs", "src/raft/filestore/raftapply.rs"],
+    "files": ["src/raft/filestore/core.rs", "src/raft/filestore/raftapply.rs", "src/raft/filestore/raftsnapshot.rs"],
     "smt": _c08,
     "trusted_base": PROPS["C09"]["trusted_base"],
     "assumptions": [
         "narrow: the receiving side of a snapshot installation inside one process - FileStore::finalize_snapshot_installation (the RaftStorage method async-raft calls when the last "
         "chunk has arrived) and Handler<StateApplyRequest> / StateApplyManager::apply_snapshot evaluated from source; index / snapshot / log managers and the data handler are recording sinks",
         "the installed snapshot has a 2-member header and 2 records; snapshot index / term / delete_through symbolic",
+        "s08_3: FileStore::create_snapshot and the snapshot manager's NewSnapshotForLoad arm from source over the file model (O_APPEND / truncate with their POSIX meaning); the receiving raft core's chunk "
+        "protocol is transcribed from async-raft-ext core/install_snapshot.rs (first chunk: create_snapshot + write; later chunk: seek when the offset differs, write; a restarted receiver begins again); "
+        "leader stream of 3 chunks of 2 symbolic bytes; schedules: in order, one chunk resent, behind an interrupted transfer of 3 / 6 / 9 bytes",
         "counterexamples about the state reaching the state machine are replayed on a real node (real store actors + state-machine components, harness/hist_store.rs) through "
         "RaftStorage::{create_snapshot, finalize_snapshot_installation}",
     ],
-    "outside": "the sending side and the chunk transfer (async-raft, tonic), leader election and log replication around the installation, a lagging follower whose old state must be discarded",
+    "outside": "the sending side and the network transfer (async-raft, tonic), leader election and log replication around the installation, a lagging follower whose old state must be discarded",
     "explanation": "bounded symbolic execution of the snapshot-installation receiver; emission-sequence oracle",
 }
 
